@@ -44,7 +44,15 @@ class SiteWorld:
         self.ctx.serversite = self.site
         self.trace = []
 
+    def activate(self):
+        """Several worlds may be alive in one thread: make this one's loop the running loop."""
+        from asyncio import events
+        if events._get_running_loop() is not self.loop:
+            events._set_running_loop(None)
+            events._set_running_loop(self.loop)
+
     def do(self, msg, ep=1, settle_timers_until=None):
+        self.activate()
         msg.direction = Direction.INCOMING
         if msg.remote is None:
             msg.remote = endpoint(ep) if isinstance(ep, int) else ep
